@@ -87,33 +87,49 @@ func writerClass(name string) string {
 	return name
 }
 
-func famEntryPoints(x *lc) {
+func famEntryPoints(t *lc) {
+	k := t.c.Choose(len(writerKinds)+2, "entry-point")
+	offered := 0
+	for _, x := range t.values() {
+		if entryPoint(x, k) {
+			offered++
+		}
+	}
+	if offered == 0 {
+		t.c.Skip("entry point not offered by the type")
+	}
+}
+
+// entryPoint checks writing entry point k for one value; false: the type does not offer it.
+func entryPoint(x *lc, k int) bool {
 	a := x.o.a
 	tn := x.e.name
-	// the reference encoding itself
+	// the reference encoding itself (reported once, by the MarshalBinary leaf)
 	if x.o.hasBin && !x.o.binOK {
-		if x.o.binOut.panicked != nil {
-			x.failPanic("entrypoints", x.o.binOut, "MarshalBinary")
-		} else {
-			x.c.Fail(sig("entrypoints", tn+".MarshalBinary", "error"), "%s [%s]: marshalling a valid object failed: %v", tn, x.label(), x.o.binOut.err)
+		if k == 0 {
+			if x.o.binOut.panicked != nil {
+				x.failPanic("entrypoints", x.o.binOut, "MarshalBinary")
+			} else {
+				x.c.Fail(sig("entrypoints", tn+".MarshalBinary", "error"), "%s [%s]: marshalling a valid object failed: %v", tn, x.label(), x.o.binOut.err)
+			}
 		}
-		return
+		return true
 	}
 	if x.o.hasJSON && !x.o.jsOK {
-		if x.o.jsOut.panicked != nil {
-			x.failPanic("entrypoints", x.o.jsOut, "json.Marshal")
-		} else {
-			x.c.Fail(sig("entrypoints", tn+".MarshalJSON", "error"), "%s [%s]: json.Marshal of a valid object failed: %v", tn, x.label(), x.o.jsOut.err)
+		if k == len(writerKinds)+1 {
+			if x.o.jsOut.panicked != nil {
+				x.failPanic("entrypoints", x.o.jsOut, "json.Marshal")
+			} else {
+				x.c.Fail(sig("entrypoints", tn+".MarshalJSON", "error"), "%s [%s]: json.Marshal of a valid object failed: %v", tn, x.label(), x.o.jsOut.err)
+			}
 		}
-		return
+		return true
 	}
-	k := x.c.Choose(len(writerKinds)+2, "entry-point")
 	switch {
 	case k == len(writerKinds): // BinarySize
 		x.c.Cover("writer", "BinarySize")
 		if a.sizer == nil || !x.o.hasBin {
-			x.c.Skip("no BinarySize")
-			return
+			return false
 		}
 		var sz int
 		o := guard(func() error { sz = a.sizer.BinarySize(); return nil })
@@ -123,18 +139,16 @@ func famEntryPoints(x *lc) {
 			// measured against what WriteTo writes ("will write exactly object.BinarySize() bytes")
 			x.c.Fail(sig("entrypoints", declName(x.o.obj, "BinarySize"), "wrong-size"), "%s [%s]: BinarySize()=%d but WriteTo writes %d bytes (MarshalBinary returns %d)", tn, x.label(), sz, len(x.o.wbin), len(x.o.bin))
 		}
-		x.c.Outcome(x.name, "BinarySize", sz == len(x.o.wbin))
-		return
+		x.c.Outcome(x.name, x.label(), "BinarySize", sz == len(x.o.wbin))
+		return true
 	case k == len(writerKinds)+1: // JSON
 		x.c.Cover("writer", "json")
-		famEntryJSON(x)
-		return
+		return famEntryJSON(x)
 	}
 	wk := writerKinds[k]
 	x.c.Cover("writer", wk.name)
 	if (k == 0 && a.bm == nil) || (k > 0 && a.wt == nil) || !x.o.hasBin {
-		x.c.Skip("entry point not offered by the type")
-		return
+		return false
 	}
 	// Reference: what WriteTo hands to a caller-flushed bufio.Writer (x.o.wbin). MarshalBinary is compared with it
 	// once (leaf 0); every other writer must deliver the same bytes and report their number.
@@ -156,14 +170,15 @@ func famEntryPoints(x *lc) {
 	case hasN && n != int64(len(ref)):
 		x.c.Fail(sig("entrypoints", subj, "wrong-count"), "%s [%s]: %s returned n=%d, wrote %d bytes", tn, x.label(), wk.name, n, len(got))
 	}
-	x.c.Outcome(x.name, wk.name, len(got), o.err == nil)
+	x.c.Outcome(x.name, x.label(), wk.name, len(got), o.err == nil)
+	return true
 }
 
 // famEntryJSON: JSON entry point. Types that declare JSON methods: json.Marshal is deterministic (the round
 // trips are family 2's). Types that only inherit them from an embedded field (rlwe.Element and everything
 // embedding it inherit *MetaData's): json.Marshal/json.Unmarshal compile and run for them, so the round trip
 // is judged here, once, under the name of the embedding type.
-func famEntryJSON(x *lc) {
+func famEntryJSON(x *lc) bool {
 	a := x.o.a
 	tn := x.e.name
 	if x.o.hasJSON {
@@ -171,12 +186,11 @@ func famEntryJSON(x *lc) {
 		if !ok || !bytes.Equal(b2, x.o.js) {
 			x.c.Fail(sig("entrypoints", tn+".MarshalJSON", "not-deterministic"), "%s: two json.Marshal calls differ (%v): %s", tn, o.err, firstDiffAt(x.o.js, b2))
 		}
-		x.c.Outcome(x.name, "json", len(x.o.js))
-		return
+		x.c.Outcome(x.name, x.label(), "json", len(x.o.js))
+		return true
 	}
 	if a.jm == nil && a.ju == nil {
-		x.c.Skip("no JSON")
-		return
+		return false
 	}
 	x.c.Cover("writer", "json-promoted")
 	subj := embedderName(x.o.obj, "MarshalJSON") + ".MarshalJSON"
@@ -200,7 +214,8 @@ func famEntryJSON(x *lc) {
 	if what != "" {
 		x.c.Fail(sig("entrypoints", subj, "json-promoted-from-embedded-field"), "%s [%s] satisfies json.Marshaler/json.Unmarshaler only through an embedded field, and json.Marshal + json.Unmarshal into a new object do not round-trip: %s", tn, x.label(), what)
 	}
-	x.c.Outcome(x.name, "json-promoted", what == "")
+	x.c.Outcome(x.name, x.label(), "json-promoted", what == "")
+	return true
 }
 
 // ---------------------------------------------------------------------------------------------
@@ -209,20 +224,28 @@ func famEntryJSON(x *lc) {
 // "decoded-two": (thorough) a zero value that decoded value j, then value k, for all ordered pairs
 var historyKinds = []string{"fresh", "constructed-other", "decoded-other", "decoded-two"}
 
-func famReceiver(x *lc) {
-	ds := availDecoders(x.o)
-	if len(ds) == 0 {
-		x.c.Skip("no decoder")
-		return
-	}
+func famReceiver(t *lc) {
 	nh := 3
-	if x.c.Tier == "thorough" {
+	if t.c.Tier == "thorough" {
 		nh = 4
 	}
-	h := x.c.Choose(nh, "receiver-history")
-	x.c.Cover("history", historyKinds[h])
+	h := t.c.Choose(nh, "receiver-history")
+	t.c.Cover("history", historyKinds[h])
 	evals, bad := 0, 0
-	for _, d := range ds {
+	for _, x := range t.values() {
+		e, b := receiverValue(x, h)
+		evals, bad = evals+e, bad+b
+	}
+	if evals == 0 {
+		t.c.Skip("no decoder")
+		return
+	}
+	t.c.Count(evals)
+	t.c.Outcome(t.name, h, evals, bad)
+}
+
+func receiverValue(x *lc, h int) (evals, bad int) {
+	for _, d := range availDecoders(x.o) {
 		x.c.Cover("decoder", d.name)
 		ref, ok := x.o.ref(d)
 		if !ok {
@@ -272,7 +295,7 @@ func famReceiver(x *lc) {
 				}
 				recv = freshLike(x.o.obj)
 				if _, o := x.decodeInto(d, recv, refj); o.err != nil || o.panicked != nil {
-					continue // value j does not decode: reported by its own scenario
+					continue // value j does not decode: reported by its own leaf
 				}
 			}
 			if j == x.vi {
@@ -296,8 +319,7 @@ func famReceiver(x *lc) {
 			}
 		}
 	}
-	x.c.Count(evals)
-	x.c.Outcome(x.name, h, evals, bad)
+	return
 }
 
 // ---------------------------------------------------------------------------------------------
@@ -370,23 +392,35 @@ func streamable(e *entry, o *cached) bool {
 	return v
 }
 
-func famStream(x *lc) {
-	if !streamable(x.e, x.o) {
-		x.c.Skip("object has no consistent, round-tripping WriteTo/ReadFrom pair (reported by entrypoints / receiver)")
-		return
-	}
-	partners := streamPartners(x.cat, x.c.Tier, x.e)
-	pi := x.c.Choose(len(partners), "second-object")
-	sr := streamReaders[x.c.Choose(len(streamReaders), "shared-reader")]
-	be := x.cat[partners[pi][0]]
-	bo := original(x.seed, be, partners[pi][1])
+func famStream(t *lc) {
+	partners := streamPartners(t.cat, t.c.Tier, t.e)
+	pi := t.c.Choose(len(partners), "second-object")
+	sr := streamReaders[t.c.Choose(len(streamReaders), "shared-reader")]
+	be := t.cat[partners[pi][0]]
+	bo := original(t.seed, be, partners[pi][1])
 	if !streamable(be, bo) {
-		x.c.Skip("second object has no consistent, round-tripping WriteTo/ReadFrom pair")
+		t.c.Skip("second object has no consistent, round-tripping WriteTo/ReadFrom pair (reported by entrypoints / receiver)")
 		return
 	}
-	x.c.Cover("stream-reader", sr.name)
-	x.c.Cover("stream-second", be.name)
-	// A, B, A written back-to-back through one writer
+	n := 0
+	for _, x := range t.values() {
+		if !streamable(x.e, x.o) {
+			continue // reported by entrypoints / receiver
+		}
+		n++
+		streamABA(x, be, bo, partners[pi][1], sr)
+	}
+	if n == 0 {
+		t.c.Skip("type has no consistent, round-tripping WriteTo/ReadFrom pair (reported by entrypoints / receiver)")
+		return
+	}
+	t.c.Cover("stream-reader", sr.name)
+	t.c.Cover("stream-second", be.name)
+	t.c.Count(4 * n)
+}
+
+// streamABA: A, B, A written back-to-back through one writer and read back through one shared reader.
+func streamABA(x *lc, be *entry, bo *cached, bvi int, sr streamReader) {
 	var stream bytes.Buffer
 	bw := bufio.NewWriter(&stream)
 	seq := []*cached{x.o, bo, x.o}
@@ -412,7 +446,7 @@ func famStream(x *lc) {
 		var n int64
 		out := guard(func() (err error) { n, err = recv.(io.ReaderFrom).ReadFrom(r); return })
 		subj := declName(o.obj, "ReadFrom")
-		where := fmt.Sprintf("object %d of stream %s|%s|%s (object bytes %d..%d) through one %s", i, x.e.name, be.name, x.e.name, pos, pos+len(o.bin), sr.name)
+		where := fmt.Sprintf("object %d of stream %s[%s]|%s|%s (object bytes %d..%d) through one %s", i, x.e.name, x.label(), be.name, x.e.name, pos, pos+len(o.bin), sr.name)
 		if out.panicked != nil {
 			x.failPanic("stream", out, where)
 			return
@@ -450,8 +484,7 @@ func famStream(x *lc) {
 	} else if out.err != nil || n != int64(len(x.o.bin)) {
 		x.c.Fail(sig("stream", declName(x.o.obj, "ReadFrom"), "plain-reader-count"), "first object of %s|%s from a plain io.Reader: n=%d (want %d) err=%v", x.e.name, be.name, n, len(x.o.bin), out.err)
 	}
-	x.c.Count(4)
-	x.c.Outcome(x.name, be.name, partners[pi][1], sr.name, len(want))
+	x.c.Outcome(x.name, x.label(), be.name, bvi, sr.name, len(want))
 }
 
 // streamCulprit: the deepest component of obj (encoded at stream[pos:]) whose own ReadFrom fails at its position
